@@ -947,7 +947,7 @@ func randBytes(r *h.Run, alphabet string, maxLen int) []byte {
 
 func main() {
 	r := h.Init("C02")
-	r.Imports = []string{"GU.C02.Path", "GU.C02.Model"}
+	r.Imports = []string{"GU.C02.Path", "GU.C02.Model", "GU.C02.Gen", "GU.C02.Inst"} // check_case = the model instantiated with the regenerated facts
 	r.ShardSize = 150
 	r.Rule("unzip scenarios: back end x destination shape (absolute/relative/trailing or doubled separators/./..-elements/archive-like/non-UTF-8) x recursive x " +
 		"archives of 1..5 entries per level (files, directories, nested archives to depth 2; names from a grammar over ., .., ..., /, //, \\, letters, control, " +
